@@ -74,17 +74,36 @@ def differential(max_error_runs=60):
         if not (got[0] == got[1] == got[2]):
             return dict(expression="%s %s %s" % (a, op, b), outputs=dict(zip(forms, got))), len(cases)
     # 2. error instances, one run each
-    err_cases = [("1.0", "/", z, "float") for z in F_ZEROS] + [("-1.5", "/", z, "float") for z in F_ZEROS[:3]] + \
-                [("7", "/", "0", "int"), ("7", "%", "0", "int"), ("9223372036854775807", "+", "1", "int"),
-                 ("9223372036854775807", "*", "2", "int"), ("2", "^", "64", "int"), ("2", "^", "4294967298", "int"),
-                 ("(0 - 9223372036854775807 - 1)", "/", "-1", "int"), ("(0 - 9223372036854775807)", "-", "2", "int")]
+    dz, ov = "error:divzero", "error:overflow"
+    err_cases = [("1.0", "/", z, "float", dz) for z in F_ZEROS] + [("-1.5", "/", z, "float", dz) for z in F_ZEROS[:3]] + \
+                [("7", "/", "0", "int", dz), ("7", "%", "0", "int", dz), ("9223372036854775807", "+", "1", "int", ov),
+                 ("9223372036854775807", "*", "2", "int", ov), ("2", "^", "64", "int", ov), ("2", "^", "4294967298", "int", ov),
+                 ("(0 - 9223372036854775807 - 1)", "/", "-1", "int", ov), ("(0 - 9223372036854775807)", "-", "2", "int", ov)]
     n = 0
-    for a, op, b, ty in err_cases[:max_error_runs]:
+    for a, op, b, ty, want in err_cases[:max_error_runs]:
         got = []
         for form, prog in _three(a, op, b, ty):
             got.append(_cls(*abra_cli.run_program(prog)))
             n += 1
-        if not (got[0] == got[1] == got[2]) or not got[0].startswith("error:"):
+        if not (got[0] == got[1] == got[2] == want):
             return dict(expression="%s %s %s" % (a, op, b), outputs=dict(zip(forms, got)),
-                        expected="the same documented runtime error in all three operand forms"), len(cases) + len(err_cases)
+                        expected="%s in all three operand forms" % want), len(cases) + len(err_cases)
     return None, len(cases) + len(err_cases)
+
+
+def standin_obligation(E, oid, props, unit, file):
+    """Bounded stand-in obligation, for units whose verifier could not decide some function on this tree."""
+    bad, n = differential()
+    return E.Obligation(oid, props, unit, "arithmetic/comparison operators on the real CLI", "bounded: differential run",
+                        E.FAILED if bad else E.DISCHARGED, ("operand forms disagree on the real CLI: %r" % (bad,)) if bad else "", 0, file, "",
+                        "%d expression instances x 3 operand forms (literal/literal, variable/literal, variable/variable)" % n,
+                        "runs ONLY when some function of this unit could not be verified on this tree: every arithmetic/comparison operator with operands "
+                        "as literals and as variables must give the same value or the same documented runtime error")
+
+
+def standin_replay(ob):
+    bad, n = differential()
+    if bad:
+        ob.cex = dict(expression=bad['expression'])
+        return True, bad
+    return None, dict(note="no disagreement among %d instances" % n)
